@@ -240,7 +240,7 @@ theorem eval_stable (cfg : Cfg) (hcap : cfg.capture = false) :
         exact ⟨Ext.refl s, hk, fun t _ => by simp [eval, he]⟩
     | param n shape init =>
       simp only [eval] at h
-      cases hp1 : scopeParam π n shape init l.res s with
+      cases hp1 : scopeParam π n (resolveDims shape) init l.res s with
       | mk res s2 =>
         rw [hp1] at h
         cases res with
@@ -273,7 +273,7 @@ theorem eval_stable (cfg : Cfg) (hcap : cfg.capture = false) :
               have hgt : getVar t π col n = some v := ht _ _ hg
               simp [eval, he, scopeVariable_stable hp1 ht, hgt]
     | get col n => simp [declOnly] at hp
-    | put col n e => simp [declOnly] at hp
+    | put col rel n e => simp [declOnly] at hp
     | sow col n e => simp [declOnly] at hp
     | perturb col n e => simp [declOnly] at hp
     | child cls name body =>
@@ -294,18 +294,19 @@ theorem eval_stable (cfg : Cfg) (hcap : cfg.capture = false) :
           rcases List.mem_append.mp hkk with h1 | h1
           · exact hk k h1
           · simp only [List.mem_singleton] at h1; subst h1; exact hp
-    | call slot a =>
+    | call slot a w =>
       simp only [eval] at h
       cases hkid : l.kids[slot]? with
       | none => simp [hkid] at h
       | some k =>
         simp only [hkid] at h
-        have hkb : declOnly k.body = true := hk k (List.mem_of_getElem? hkid)
+        have hkb : declOnly (bindArg w k.body) = true := by
+          rw [declOnly_bindArg]; exact hk k (List.mem_of_getElem? hkid)
         cases he : evalE x l.env a with
         | error err => simp [he] at h
         | ok av =>
           simp only [he] at h
-          cases hb : eval cfg fuel k.body (π ++ [k.name]) av {} s with
+          cases hb : eval cfg fuel (bindArg w k.body) (π ++ [k.name]) av {} s with
           | mk res s2 =>
             rw [hb] at h
             cases res with
@@ -313,7 +314,7 @@ theorem eval_stable (cfg : Cfg) (hcap : cfg.capture = false) :
             | ok lk =>
               simp only [finishCall_quiet hcap, Prod.mk.injEq, Except.ok.injEq] at h
               obtain ⟨rfl, rfl⟩ := h
-              obtain ⟨g1, _, st1⟩ := ih k.body (π ++ [k.name]) av {} lk s s2 hkb
+              obtain ⟨g1, _, st1⟩ := ih (bindArg w k.body) (π ++ [k.name]) av {} lk s s2 hkb
                 (fun _ hh => absurd hh (by simp)) hb
               refine ⟨g1, hk, ?_⟩
               intro t ht
